@@ -18,7 +18,10 @@ EXTRA = {"c01-frag-result-last-datagram": ["C07"], "c08-r3-fragment-glue-le": ["
          "c08-r9-tcp-noka-always-reconnects": ["C10"], "c10-r9-tcp-noka-close-on-success-only": ["C08"],
          "c02-r10-udp-skip-to-aa55-in-continuation": ["C07"], "c04-r10-connect-retries-zero-becomes-three": ["C05"],
          "c05-r10-tcp-deadline-includes-connect": ["C04"], "c12-r10-bytel-skip-moved-to-read": ["C16"],
-         "c16-r10-dt-sensors-extends-in-place": ["C14"]}
+         "c16-r10-dt-sensors-extends-in-place": ["C14"], "c17-r9-udp-queued-inherits-socket": ["C10"],
+         "c05-r11-udp-noka-close-via-public-close": ["C10"], "c11-r11-es-settings-outside-by-prefix": ["C12"],
+         "c12-r11-battery-map-after-try": ["C14"], "c12-r11-map-response-try-hoisted": ["C15"],
+         "c20-r11-tx-wrap-modulus-off-by-one": ["C03"]}
 only = sys.argv[1:]
 for d in sorted(glob.glob(os.path.join(ROOT, "seeded", "[!_]*"))):
     name = os.path.basename(d)
